@@ -255,16 +255,31 @@ def check_test_form(chk, mod, func, loop, test, raise_stmt, conds, opt, env_stat
     if limit_var is None:
         raise Unrecognised('C09.T', "the limit is not read into a local from options.get('maxStatements', ...)", mod.rel)
     v = limit_def.value
-    good_src = isinstance(v, ast.Call) and isinstance(v.func, ast.Attribute) and v.func.attr == 'get' and norm(v.func.value) == opt \
+
+    def unalias(node):
+        # a local that is assigned exactly once in the function, from a plain name / attribute (options_get = options.get, default = DEFAULT_MAX_STATEMENTS), reads as its source
+        seen = 0
+        while isinstance(node, ast.Name) and seen < 3:
+            defs = [a for a in ast.walk(func) if isinstance(a, ast.Assign) and any(isinstance(t, ast.Name) and t.id == node.id for t in a.targets)]
+            if len(defs) != 1 or not isinstance(defs[0].value, (ast.Name, ast.Attribute)):
+                break
+            node = defs[0].value
+            seen += 1
+        return node
+    vfunc = unalias(v.func) if isinstance(v, ast.Call) else None
+    varg1 = unalias(v.args[1]) if isinstance(v, ast.Call) and len(v.args) == 2 else None
+    good_src = isinstance(v, ast.Call) and isinstance(vfunc, ast.Attribute) and vfunc.attr == 'get' and norm(vfunc.value) == opt \
         and len(v.args) == 2 and const_str(v.args[0]) == LIMIT_KEY
     if good_src:
-        default = chk.repo.module('library').const(norm(v.args[1]), 'C09.T') if isinstance(v.args[1], ast.Name) else mod.lit(v.args[1])
+        default = chk.repo.module('library').const(norm(varg1), 'C09.T') if isinstance(varg1, ast.Name) else mod.lit(varg1)
         if isinstance(default, (int, float)) and default > 0:
             chk.ok('C09.T', f'limit = {norm(v)} with positive default {default!r} (no script can run forever by default)')
         else:
             chk.bad('C09.T', mod, func.name, norm(v), f'the default statement limit is {default!r}: it must be a positive number, otherwise scripts are unlimited by default', node=v)
-    else:
+    elif isinstance(v, ast.Call) and isinstance(vfunc, ast.Attribute) and vfunc.attr == 'get' and norm(vfunc.value) != opt and len(v.args) >= 1 and const_str(v.args[0]) == LIMIT_KEY:
         chk.bad('C09.T', mod, func.name, norm(v), "the limit must come from options.get('maxStatements', DEFAULT_MAX_STATEMENTS) of this run's options", node=v)
+    else:
+        chk.unrec('C09.T', f'the source of the limit is not recognised: {norm(v)[:80]}', mod.rel)
     # locals assigned inside the abort test (e.g. a hoisted count read) extend the environment
     inner_env = dict(env)
     for n in ast.walk(test):
@@ -762,7 +777,7 @@ def _loop_helpers(repo):
     return out
 
 
-def check_counter_shape(chk, step_ok, which=('D', 'R', 'W')):
+def check_counter_shape(chk, step_ok, which=('D', 'R', 'W'), budget_ok=False):
     """C09.D / R / W shape read-backs.  When the evaluation of the statement loop decided positively (step_ok), what they say about code that belongs to the statement loop is advisory:
     C09.D altogether, C09.W / C09.R for the helper functions and helper-object methods only the loop uses (the loop function itself stays under the rules)"""
     bf, bu, bi = len(chk.findings), len(chk.unrecognised), len(chk.instances)
@@ -778,7 +793,8 @@ def check_counter_shape(chk, step_ok, which=('D', 'R', 'W')):
     short = {x.split('.')[-1] for x in loop_fns}
     keep = []
     for f in chk.findings[bf:]:
-        if f.rule == 'C09.D' or (f.rule in ('C09.W', 'C09.R') and f.file.endswith('runtime.py') and (f.func in loop_fns or f.func in short)):
+        # with the whole-program budget sweeps (C09.B) also decided positively, who reads the limit / writes the counter anywhere in runtime.py is advisory as well
+        if f.rule == 'C09.D' or (f.rule in ('C09.W', 'C09.R') and f.file.endswith('runtime.py') and (budget_ok or f.func in loop_fns or f.func in short)):
             chk.note(f'{f.rule} shape read-back not confirmed by the evaluation of the statement loop, ignored: {f.what[:140]} [{f.func}]')
         else:
             keep.append(f)
@@ -863,7 +879,7 @@ def check_budget(chk, rule='C09.B'):
 
 def run(chk):
     chk.rule('C09.B', 'whole programs evaluated (E9r) under every statement limit: exact abort point, prefix, monotonicity; script functions however invoked are counted', floor=150)
-    chk.guard('C09.B', check_budget, chk)
+    budget_ok = chk.guard('C09.B', check_budget, chk)
     chk.rule('C09.D', 'increment (+1, read-modify-write on the shared dict) and limit test dominate the dispatch', floor=3)
     chk.rule('C09.T', 'abort condition = (limit > 0 and count > limit) over 6 abstract cases; error class/message; positive default', floor=8)
     chk.rule('C09.W', 'who writes the counter key: reset, increment, write-backs only', floor=3)
@@ -879,7 +895,7 @@ def run(chk):
     bf, bu = len(chk.findings), len(chk.unrecognised)
     chk.guard('C08.E', c08.check_step, chk)
     step_ok = len(chk.findings) == bf and len(chk.unrecognised) == bu
-    check_counter_shape(chk, step_ok, ('D', 'R', 'W'))
+    check_counter_shape(chk, step_ok, ('D', 'R', 'W'), budget_ok=bool(budget_ok))
     check_identity_with_sim(chk)
     chk.guard('C09.I', check_callbacks, chk)
     chk.guard('C09.H', check_handler_order, chk)
